@@ -1071,6 +1071,9 @@ func (e *Engine) callFnEnv(fn *ssa.Function, args []value, env []value) value {
 	}
 	e.depth++
 	if e.depth > 200 {
+		if os.Getenv("GOSYM_DEBUG") != "" {
+			fmt.Fprintln(os.Stderr, "call depth exceeded:", e.stackStr())
+		}
 		e.end("truncated", "call depth")
 	}
 	e.noteFunc(fn)
@@ -1144,7 +1147,7 @@ func (e *Engine) execInit(fr *frame, b *ssa.BasicBlock, instr ssa.Instruction) (
 	depth := e.depth
 	defer func() {
 		if r := recover(); r != nil {
-			if pe, ok := r.(pathEnd); ok && pe.kind != "unsupported" && pe.kind != "panic" {
+			if pe, ok := r.(pathEnd); ok && pe.kind != "unsupported" && pe.kind != "panic" && !(pe.kind == "truncated" && pe.msg == "call depth") {
 				panic(r)
 			}
 			e.depth = depth
@@ -1631,17 +1634,21 @@ func (e *Engine) next(fr *frame, in *ssa.Next) value {
 		it.i++
 		return tuple{TrueT, copyVal(k), copyVal(v)}
 	case *strIter:
-		// ASCII only in this spike
 		if !e.decide(Ult(BV(64, uint64(it.i)), it.s.n)) {
 			return tuple{FalseT, BV(64, 0), BV(32, 0)}
 		}
 		c := it.s.arr.b[it.s.off+it.i]
-		if !e.decide(Ult(c, BV(8, 0x80))) {
-			e.end("unsupported", "non-ASCII range over string")
-		}
 		i := it.i
-		it.i++
-		return tuple{TrueT, BV(64, uint64(i)), ZExt(c, 32)}
+		if e.decide(Ult(c, BV(8, 0x80))) {
+			it.i++
+			return tuple{TrueT, BV(64, uint64(i)), ZExt(c, 32)}
+		}
+		// multi-byte or invalid sequence: the real decoder is interpreted
+		rest := &bytesV{arr: it.s.arr, off: it.s.off + i, n: Sub(it.s.n, BV(64, uint64(i))), cap: it.s.cap - i}
+		r := e.callFn(e.fn("unicode/utf8", "DecodeRuneInString"), []value{rest}).(tuple)
+		size := e.concretize(r[1].(*Term), 1, 4)
+		it.i += size
+		return tuple{TrueT, BV(64, uint64(i)), r[0]}
 	}
 	panic("next")
 }
@@ -1783,6 +1790,10 @@ func (e *Engine) builtin(fr *frame, b *ssa.Builtin, c *ssa.CallCommon, args []va
 		return e.snapshot(&bytesV{arr: sp.b.arr, off: sp.b.off, n: n, cap: sp.b.cap})
 	case "print", "println":
 		return nil
+	case "recover":
+		// a run-time panic ends the path (as a finding) before any deferred call
+		// runs, so a deferred recover() never observes one
+		return iface{}
 	case "close":
 		ch, _ := args[0].(*chanObj)
 		e.chanClose(ch)
